@@ -3,6 +3,7 @@ import ast
 
 from ..model import AnalysisError, callee, norm, src, walk_no_nested, iter_child_stmts, kwarg
 from .. import rawstores
+from ..cfg import CFG, ReachingDefs
 from ..bitloops import Skeleton, control_independent_of_payload
 
 DECODERS = ['read_rle', 'read_bitpacked1', 'read_bitpacked', 'read_rle_bit_packed_hybrid', 'delta_read_bitpacked',
@@ -256,31 +257,46 @@ def r119(ctx, rule='R11.9'):
         calls = [c for c in walk_no_nested(f) if isinstance(c, ast.Call) and (callee(c) or '').endswith('read_rle_bit_packed_hybrid')]
         if not calls:
             continue
-        defs = {}
-        for st in walk_no_nested(f):
-            if isinstance(st, ast.Assign) and len(st.targets) == 1 and isinstance(st.targets[0], ast.Name):
-                defs.setdefault(st.targets[0].id, []).append(st.value)
+        cfg = CFG(f)
+        rd = ReachingDefs(cfg)
 
-        def lengths_of(name, depth=0):
-            """byte lengths with which the buffer behind `name` was produced"""
+        def stmt_node(node):
+            for nd in cfg.nodes:
+                if nd.stmt is not None and any(x is node for x in ast.walk(nd.stmt)) and not isinstance(nd.stmt, (ast.If, ast.For, ast.While, ast.Try, ast.With)):
+                    return nd.id
+            for nd in cfg.nodes:
+                if nd.stmt is not None and any(x is node for x in ast.walk(getattr(nd.stmt, 'test', None) or getattr(nd.stmt, 'iter', None) or ast.Pass())):
+                    return nd.id
+            return None
+
+        def lengths_of(name, at, depth=0):
+            """byte lengths with which the buffer behind `name` (as it reaches node `at`) was produced"""
             out = set()
-            if depth > 4:
+            if depth > 4 or at is None:
                 return out
-            for v in defs.get(name, []):
-                for c in ast.walk(v):
-                    if not isinstance(c, ast.Call):
-                        continue
+            for d in rd.defs_reaching(at, name):
+                st = cfg.nodes[d].stmt
+                if not isinstance(st, ast.Assign):
+                    continue
+                v = st.value
+                top = [c for c in ast.walk(v) if isinstance(c, ast.Call)]
+                done = False
+                for c in top:
                     cn = callee(c) or ''
                     if cn.endswith('decompress_data') and len(c.args) >= 2:
-                        out.add(norm(c.args[1]))
-                    elif cn.endswith('.read') and len(c.args) == 1:
-                        out.add(norm(c.args[0]))
-                    elif cn.endswith('NumpyIO') and c.args:
-                        for x in ast.walk(c.args[0]):
-                            if isinstance(x, ast.Name):
-                                out |= lengths_of(x.id, depth + 1)
-                if not out and isinstance(v, ast.Name):
-                    out |= lengths_of(v.id, depth + 1)
+                        out.add(norm(c.args[1])); done = True
+                        break
+                if done:
+                    continue
+                for c in top:
+                    cn = callee(c) or ''
+                    if cn.endswith('.read') and len(c.args) == 1:
+                        out.add(norm(c.args[0])); done = True
+                if done:
+                    continue
+                for x in ast.walk(v):
+                    if isinstance(x, ast.Name) and x.id != name and isinstance(x.ctx, ast.Load) and x.id not in ('encoding', 'np'):
+                        out |= lengths_of(x.id, d, depth + 1)
             return out
         for c in calls:
             n += 1
@@ -294,7 +310,7 @@ def r119(ctx, rule='R11.9'):
             elif isinstance(io, ast.Name) and t in ('%s.len - %s.tell()' % (io.id, io.id),):
                 ok, why = True, 'rest of the same stream'
             elif isinstance(io, ast.Name):
-                ls = lengths_of(io.id)
+                ls = lengths_of(io.id, stmt_node(c))
                 ok, why = t in ls, 'buffer of %s produced with length(s) %s' % (io.id, sorted(ls))
             ctx.ob(rule, 'core.%s:hybrid-decode-limit-is-a-length-of-its-own-buffer:%s' % (q, t[:50]), ok,
                    'read_rle_bit_packed_hybrid(%s, ..., %s, ...): %s' % (norm(io) if io is not None else '?', t, why), core.loc(c))
